@@ -99,7 +99,7 @@ class FragSpec:
 
 def make_fragment(gen, r, rid, case_id, method, cell, contig, site, reverse, umi, frag_len, r1_len=40, r2_len=40,
                   clip=0, mismatches=0, motif_ok=True, cycle_shift=False, chic_trimmed=True, single_end=False,
-                  dup_flag=False, stale_tags=False, r2_mismatches=0, lib='LIB', mapq=60, qual=None, pretag=None):
+                  dup_flag=False, stale_tags=False, r2_mismatches=0, lib='LIB', mapq=60, qual=None, pretag=None, r2_indel=None):
     """Returns (records, truth) ; records are dicts for sim.bam.write_bam.
 
     site: NLA: coordinate of the C of CATG (both strands). CHIC: coordinate of the ligated base g.
@@ -177,6 +177,25 @@ def make_fragment(gen, r, rid, case_id, method, cell, contig, site, reverse, umi
         aln_ref, aln_read = ref[r1_start:r1_end], r1_seq
     md1, nm1 = md_nm(aln_ref, aln_read)
     md2, nm2 = md_nm(ref[r2_start:r2_end], r2_seq)
+    r2_cigar = f'{r2_len}M'
+    if r2_indel is not None and r2_len >= 24:
+        kind_, k_ = r2_indel
+        j_ = r.randint(8, r2_len - k_ - 8)
+        if kind_ == 'I':
+            # k inserted bases after j aligned bases; the read still has r2_len bases, it covers r2_len-k reference bases from r2_start
+            ins = rand_dna(r, k_)
+            left, right = ref[r2_start:r2_start + j_], ref[r2_start + j_:r2_start + r2_len - k_]
+            r2_seq = left + ins + right
+            r2_cigar = f'{j_}M{k_}I{r2_len - j_ - k_}M'
+            md2, nm2 = str(r2_len - k_), k_
+            r2_end = r2_start + r2_len - k_
+        elif r2_start + r2_len + k_ <= clen:
+            # k reference bases deleted after j aligned bases
+            left, dele, right = ref[r2_start:r2_start + j_], ref[r2_start + j_:r2_start + j_ + k_], ref[r2_start + j_ + k_:r2_start + r2_len + k_]
+            r2_seq = left + right
+            r2_cigar = f'{j_}M{k_}D{r2_len - j_}M'
+            md2, nm2 = f'{j_}^{dele}{r2_len - j_}', k_
+            r2_end = r2_start + r2_len + k_
     mx = MX_NLA if method == 'nla' else (MX_CHIC_TRIMMED if chic_trimmed else MX_CHIC_UNTRIMMED)
     extra = ''
     if method == 'chic':
@@ -198,7 +217,7 @@ def make_fragment(gen, r, rid, case_id, method, cell, contig, site, reverse, umi
     rec1 = {'name': qn, 'flag': flag1, 'tid': tid, 'pos': r1_pos, 'mapq': mapq, 'cigar': r1_cigar, 'seq': r1_seq, 'qual': q1, 'tags': tags1,
             'next_tid': -1 if single_end else tid, 'next_pos': -1 if single_end else r2_start,
             'tlen': 0 if single_end else (tl if not reverse else -tl)}
-    rec2 = {'name': qn, 'flag': flag2, 'tid': tid, 'pos': r2_start, 'mapq': mapq, 'cigar': f'{r2_len}M', 'seq': r2_seq, 'qual': q2, 'tags': tags2,
+    rec2 = {'name': qn, 'flag': flag2, 'tid': tid, 'pos': r2_start, 'mapq': mapq, 'cigar': r2_cigar, 'seq': r2_seq, 'qual': q2, 'tags': tags2,
             'next_tid': tid, 'next_pos': r1_pos, 'tlen': -tl if not reverse else tl}
     recs = [rec1] if single_end else [rec1, rec2]
     valid = True
